@@ -162,7 +162,28 @@ func (c *c13Case) step(op string) {
 	switch f[0] {
 	case "bstage":
 		if !ok {
-			r.Count("bstage/fail/" + res)
+			kind := res
+			if res == "err" {
+				// sub-class for the coverage histogram, from the inputs
+				ds, _ := parseDiffs(f[8])
+				kind = "feeSched"
+				for _, x := range ds {
+					if x.state > 3 {
+						kind = "endingState"
+					}
+				}
+				for _, x := range ds {
+					if _, known := prev.A[x.acct]; !known {
+						kind = "getAccount"
+					}
+				}
+				for n := range matched {
+					if _, known := prev.O[n]; !known {
+						kind = "getOrder"
+					}
+				}
+			}
+			r.Count("bstage/fail/" + kind)
 			break
 		}
 		r.Count("bstage/ok")
